@@ -107,8 +107,8 @@ def opYRefuses (w : World) : OpY → Prop
 
 variable {S V}
 
-/-- a refused operation leaves the world unchanged — for `move` in a world with the index invariant (without it there is the
-partial failure `NameFail`, `opMove_err_frame`) -/
+/-- a refused operation leaves the world unchanged (for `move` this holds unconditionally since the repair of
+c11:move-fails-without-item-name, `opMove_err_frame`; the hypothesis `hw` is kept so that the statement stays as it was) -/
 theorem applyOpY_err_frame (w : World) (hw : WInv S vOk w) (op : OpY) (h : opYRefuses S V w op) :
     (applyOpY S V rootAttrs w op).1 = w := by
   cases op with
